@@ -280,10 +280,10 @@ INFO = {
         "rule": _RES_GEN + " For C10: pairs h*f1, h*g1 with arbitrary contents and signs, coprime, nested, equal, constants, zero.",
         "rulefn": _poly_pair_rule,
         "trusted": [],
-        "gaps": ["d | f, d | g, coprime cofactors, content rule, positive leading coefficient, degree = deg f + deg g - rank(Sylvester): certified per explored case (exact division, independent Euclid over Q, rational-elimination rank); exactness of the PRS divisions as in C04"],
+        "gaps": ["the theorems are conditional on the exactness flag of the model (every truncated division in the subresultant loop is exact): exactness for all inputs (the subresultant theorem) is not proved, it is asserted on every explored case; independently of the theorems every explored case is certified (exact division, Euclid over Q, rational-elimination rank of the Sylvester matrix)"],
         "assumptions": ["not both arguments zero"],
-        "level_text": "Theorems: gcd(0,g) = g; soundness of the certificate checked per case (a common divisor of f and g divides any integer combination c*d). The divisibility and maximality of the returned d are certified on every explored case by independent exact computations.",
-        "level_note": "Trusted: Lean kernel + 3 standard axioms; correspondence coverage. Partial: maximality/divisibility for all inputs is not proved (subresultant exactness).",
+        "level_text": "Theorems about the Lean model of resultant_smart_gcd, for all non-zero canonical f, g on which the model's exactness flag is set: the result divides f and g in Z[x], every common divisor in Z[x] divides it (Gauss's lemma from Mathlib), it equals gcd(cont f, cont g) times a primitive polynomial with positive leading coefficient, and a gcd with positive leading coefficient is unique; gcd(0,g) = g. Model tied to resultant.rs by differential testing; each explored case is additionally certified by independent exact computations.",
+        "level_note": "Trusted: Lean kernel + 3 standard axioms; Mathlib Polynomial/GaussLemma; correspondence coverage. Partial: exactness of the subresultant divisions is a hypothesis (flag), checked per explored case, not a theorem.",
     },
     "C13": {
         "rule": "every n in [-3, 2^13) (thorough 2^17); Carmichael numbers by Korselt search below 2*10^5 (thorough 5*10^6); published strong pseudoprimes psi_1..psi_8 and others, repeated; scripted all-liar histories (bases 1 and n-1) and liar histories broken by a witness in the last round for composites; scripted and seeded histories for primes up to 2^61-1; Mersenne primes up to 2^607-1, their products, random odd numbers and semiprimes up to 512 bits; the random history (raw RNG chunks) of every run is captured by the hook and replayed into the model. Exhaustive strong-liar counts for odd n below 2^10 (thorough 2^13) on the model. Non-trivial: |n| > 3; distinct = distinct (op,args incl. history).",
